@@ -113,6 +113,7 @@ CLAIMED = {
          'decide witnesses for the recorded findings (first-wins cache, definition after use, onsets closer than the '
          'jump). The zoneinfo path delegates to dateutil.tz.tzical (external): tied by correspondence and the oracle '
          'only - partial, named.',
+         'The second half of Timezone.get_transitions (everything after transitions.sort()) is regenerated from the source by tools/py2lean.py as a fragment and proved equal to infoGo / dstOffset (body_get_transitions_info). '
          'Trusted: Lean kernel; hand models of _extract_offsets/get_transitions/lookup/cache tied by correspondence on '
          'generated VTIMEZONEs at each onset -1s/0/+1s under both providers; RRULE expansion is dateutil\'s.',
          'DESIGN.md 6/C12'),
